@@ -549,6 +549,8 @@ pub fn ops() -> Vec<Op> {
         v.push(Op::GetMutAssign(i, Sg::I(9), 0));
         v.push(Op::PtrMutAssign(i, Sg::K("a"), Sg::I(1), 3));
         v.push(Op::PtrMutAssign(i, Sg::I(2), Sg::I(0), 1));
+        v.push(Op::PtrMutAssign(i, Sg::I(0), Sg::I(0), 1));
+        v.push(Op::PtrMutAssign(i, Sg::K("n"), Sg::K("x"), 0));
         v.push(Op::PtrMutEmpty(i, 0));
         v.push(Op::ReadGet(i, Sg::K("a")));
         v.push(Op::ReadGet(i, Sg::I(0)));
@@ -567,6 +569,11 @@ pub const STARTS: &[&str] = &[
     "true",
     "{}",
     "[]",
+    // numbers whose text is not what a formatter would write, odd spacing
+    "{\"a\":[1.50 ,{\"b\":1e2}] ,\"n\":12345678901234567890123,\"c\":[ ]}",
+    "[ 1.50,2.0E+1 ,{\"k\":0.10}]",
+    "1.50",
+    "1E2",
 ];
 
 fn leaf_olv(i: usize) -> OwnedLazyValue {
@@ -803,7 +810,65 @@ pub fn run_history(ctx: &mut Ctx, start: usize, how: usize, seq: &[u32], all_ops
         let mut live = vec![mk_start(src, how)];
         let mut model = vec![m_of(&n, src.as_bytes())];
         for (k, op) in hist.iter().enumerate() {
+            // operations that read leave every live value byte-identical; mutable lookups that find
+            // nothing may normalise the spacing of the container they were called on, but leave
+            // every token (number spelling, string escapes) as it was
+            fn tokens(s: &str) -> String {
+                let mut out = String::new();
+                let mut in_str = false;
+                let mut esc = false;
+                for c in s.chars() {
+                    if in_str {
+                        out.push(c);
+                        if esc {
+                            esc = false;
+                        } else if c == '\\' {
+                            esc = true;
+                        } else if c == '"' {
+                            in_str = false;
+                        }
+                    } else if c == '"' {
+                        in_str = true;
+                        out.push(c);
+                    } else if !matches!(c, ' ' | '\n' | '\t' | '\r') {
+                        out.push(c);
+                    }
+                }
+                out
+            }
+            let before: Vec<String> = live.iter().map(|o| sonic_rs::to_string(o).unwrap_or_default()).collect();
+            let before_model: Vec<String> = model
+                .iter()
+                .map(|m| {
+                    let mut s = String::new();
+                    m_dump(m, &mut s);
+                    s
+                })
+                .collect();
+            let n_before = live.len();
             apply(op, &mut live, &mut model).map_err(|e| (k, e))?;
+            let pure = matches!(op, Op::ReadGet(..) | Op::ReadAsContainer(_) | Op::Serialize(_) | Op::Clone(_));
+            for i in 0..n_before.min(live.len()) {
+                if matches!(op, Op::Drop(_) | Op::Take(_)) {
+                    break;
+                }
+                let mut now_model = String::new();
+                m_dump(&model[i], &mut now_model);
+                if pure || now_model == before_model[i] {
+                    let now = sonic_rs::to_string(&live[i]).unwrap_or_default();
+                    // a successful as_*_mut / get_mut that re-assigns an equal value may legitimately
+                    // re-format: only operations that changed nothing in the model and returned
+                    // "not found" / are reads are held to byte identity
+                    let lookup_failed = match op {
+                        Op::GetMutAssign(..) | Op::PtrMutAssign(..) => now_model == before_model[i],
+                        _ => pure,
+                    };
+                    let same = if pure { now == before[i] } else { tokens(&now) == tokens(&before[i]) };
+                    if lookup_failed && !same {
+                        return Err((k, format!("live value {i} serialized as {:?} before and {:?} after an operation that changed nothing", before[i], now)));
+                    }
+                }
+            }
         }
         let key = live.iter().map(|o| format!("{:?}", o)).collect::<Vec<_>>().join("|");
         Ok((live.len(), key))
